@@ -58,3 +58,18 @@ Definition accept (c : config) (ms : sstate) (o : op) (r : out) : sstate + N :=
   else if negb (ipcp_ack_ok acc r) then inr 2
   else if negb (ownership_ok (m_prev ms) (op_src o) r) then inr 3
   else inl {| m_prev := o_sessions r; m_acc := acc |}.
+
+(* ---- the property stated directly on runs of the Model (used by Props/C04.v) ---- *)
+(* state after a history of frames; output of one more frame; all outputs of a history *)
+Definition exec (c : config) (ops : list op) : state :=
+  fold_left (fun st o => fst (fst (step c st o))) ops (init c).
+Definition out_at (c : config) (ops : list op) (o : op) : out := snd (fst (step c (exec c ops) o)).
+Fixpoint outs_from (c : config) (st : state) (ops : list op) : list out :=
+  match ops with
+  | [] => []
+  | o :: tl => snd (fst (step c st o)) :: outs_from c (fst (fst (step c st o))) tl
+  end.
+Definition outs (c : config) (ops : list op) : list out := outs_from c (init c) ops.
+
+(* session (creation index) k had an accept event in one of these step outputs *)
+Definition accepted_in (c : config) (rs : list out) (k : N) : Prop := exists r, In r rs /\ In k (accepts c r).
